@@ -202,6 +202,14 @@ static std::string name_class(Plan const& p)
     return std::string();
 }
 
+std::string roundtrip_class(Plan const& p)
+{
+    std::string const nc = (p.acc != 0) ? name_class(p) : std::string();
+    if (!nc.empty()) return nc;
+    if (p.eng == E_MINSTD0 || p.eng == E_MINSTD || p.eng == E_KNUTH_B) return fmt("engine %s", engine_name(p.eng));
+    return std::string();
+}
+
 bool durability_check(Plan const& p, IWorld& nw, ChkptView const& before, std::string const& text,
     Report& rep, char const* where)
 {
